@@ -47,6 +47,11 @@ N_QUICK = 4000
 N_THOROUGH = 60000
 
 
+SERVER_VARIANTS = (4, 5, 9, 10, 11)      # leptos_server wrappers (9: the plain Action obtained by From<ServerAction>)
+N_VARIANTS = 12
+N_MULTI = 7
+
+
 def gen_events(rng, multi=False):
     evs = []
     nd = 0
@@ -60,6 +65,8 @@ def gen_events(rng, multi=False):
             else:
                 evs.append([0, rng.randint(-50, 50)])
             nd += 1
+        elif r < 0.25:
+            evs.append([8, rng.randint(-50, 50)])      # dispatch while resource loads are suppressed: a no-op
         elif r < 0.36:
             evs.append([1, tgt])
         elif r < 0.58:
@@ -126,9 +133,11 @@ def with_restore(rng, case):
     if rng.random() >= 0.25:
         return case
     v = case[1]
-    if v >= 4:
+    if v in SERVER_VARIANTS:
         p = rng.choice([1, 1, 1, 2, 0])
         r = -rng.randint(2, 99)
+    elif v == 8:
+        return case          # create_action has no initial value
     else:
         p, r = 1, rng.choice([rng.randint(1, 99), -rng.randint(2, 99)])
     return [0, v, [[5, []]] + case[2], [p, r]]
@@ -146,14 +155,14 @@ def generate(rng, tier):
     for _ in range(n):
         r = rng.random()
         if r < 0.45:
-            v = rng.randint(0, 5)
+            v = rng.randrange(N_VARIANTS)
             yield dict(case=with_restore(rng, [0, v, gen_events(rng)]), kind="single-free")
         elif r < 0.65:
-            yield dict(case=with_restore(rng, [0, rng.randint(0, 5), gen_race(rng)]), kind="abort-race")
+            yield dict(case=with_restore(rng, [0, rng.randrange(N_VARIANTS), gen_race(rng)]), kind="abort-race")
         elif r < 0.78:
-            yield dict(case=with_restore(rng, [0, rng.randint(0, 5), gen_overlap(rng)]), kind="overlap")
+            yield dict(case=with_restore(rng, [0, rng.randrange(N_VARIANTS), gen_overlap(rng)]), kind="overlap")
         else:
-            yield dict(case=[1, gen_events(rng, multi=True), rng.randint(0, 2)], kind="multi")
+            yield dict(case=[1, gen_events(rng, multi=True), rng.randrange(N_MULTI)], kind="multi")
 
 
 # ------------------------------------------------------------------ independent bookkeeping
@@ -300,7 +309,7 @@ def oracle(item, impl):
                 if val != want["value"]:
                     if want["version"] == 0 and len(case) > 3 and case[3] and 4 not in [x[0] for x in events[:j + 1]]:
                         return "event %d: value %r, but the action was created with %r (%s) and nothing completed or cleared it" % (
-                            j, val, want["value"], "ServerActionError context %r" % (case[3],) if case[1] >= 4 else "new_with_value")
+                            j, val, want["value"], "ServerActionError context %r" % (case[3],) if case[1] in SERVER_VARIANTS else "new_with_value")
                     return "event %d: value %r is not the result of the most recently completed dispatch (%r)" % (
                         j, val, want["value"])
                 if not want["pending"] and inp is not None:
@@ -335,24 +344,29 @@ def nontrivial(item, model):
 
 
 NAMES = {0: "dispatch", 1: "abort", 2: "complete", 3: "poll", 4: "clear", 5: "run-until-idle", 6: "drop-handle",
-         7: "dispatch_sync"}
+         7: "dispatch_sync", 8: "dispatch-while-suppressed"}
 
 
 def describe(it):
     case = it["case"]
     if case[0] == 1:
         evs = case[1]
-        head = ["ArcMultiAction", "ArcServerMultiAction (mock server fn)", "ServerMultiAction (mock server fn)"][case[2] if len(case) > 2 else 0]
+        head = ["ArcMultiAction", "ArcServerMultiAction (mock server fn)", "ServerMultiAction (mock server fn)",
+                "MultiAction (arena; records read through Submission::from)", "MultiAction::from(ServerMultiAction)",
+                "ArcServerMultiAction::default()", "ServerMultiAction::default()"][case[2] if len(case) > 2 else 0]
     else:
         evs = case[2]
         head = ["ArcAction::dispatch", "Action::dispatch", "ArcAction::dispatch_local (unsync)",
                 "Action::dispatch_local (local)", "ArcServerAction::dispatch (mock server fn; negative = Err)",
-                "ServerAction::dispatch (mock server fn; negative = Err)"][case[1] % 6]
+                "ServerAction::dispatch (mock server fn; negative = Err)",
+                "Action::new_unsync + dispatch_local", "Action::new_unsync_local + dispatch_local", "create_action + dispatch",
+                "Action::from(ServerAction)::dispatch (mock server fn)", "ArcServerAction::default()::dispatch",
+                "ServerAction::default()::dispatch"][case[1] % 12]
         if case[0] == 2:
             head += " [pre-fix model only]"
         if len(case) > 3 and case[3]:
             p, r = case[3]
-            if case[1] >= 4:
+            if case[1] in SERVER_VARIANTS:
                 head += " created under a ServerActionError context (%s)" % (
                     ["another function's path", "its own path, error %d" % r, "its own path, undecodable payload"][p])
             else:
@@ -397,24 +411,24 @@ def valid_case(item):
     case = item["case"]
     try:
         if case[0] in (0, 2):
-            if len(case) not in (3, 4) or not isinstance(case[1], int) or not 0 <= case[1] <= 5:
+            if len(case) not in (3, 4) or not isinstance(case[1], int) or not 0 <= case[1] < N_VARIANTS:
                 return False
             if len(case) == 4 and case[3] != []:
                 rs = case[3]
                 if case[0] == 2 or not (isinstance(rs, list) and len(rs) == 2 and all(isinstance(x, int) for x in rs)):
                     return False
-                if rs[0] not in ((0, 1, 2) if case[1] >= 4 else (1,)):
+                if rs[0] not in ((0, 1, 2) if case[1] in SERVER_VARIANTS else (1,)) or case[1] == 8:
                     return False
-                if case[1] >= 4 and rs[1] >= 0:
+                if case[1] in SERVER_VARIANTS and rs[1] >= 0:
                     return False
             evs, multi = case[2], False
         elif case[0] == 1:
-            if len(case) not in (2, 3) or (len(case) == 3 and case[2] not in (0, 1, 2)):
+            if len(case) not in (2, 3) or (len(case) == 3 and case[2] not in range(N_MULTI)):
                 return False
             evs, multi = case[1], True
         else:
             return False
-        arity = {0: 2, 1: 2, 2: 3, 3: 3, 4: 1, 5: 2, 6: 2, 7: 2}
+        arity = {0: 2, 1: 2, 2: 3, 3: 3, 4: 1, 5: 2, 6: 2, 7: 2, 8: 2}
         for e in evs:
             if not isinstance(e, list) or not e or e[0] not in arity or len(e) != arity[e[0]]:
                 return False
